@@ -122,8 +122,10 @@ def work(job):
         if o["kind"] in ("openr", "openw") and o["path"].startswith(root + "/"):
             opened.add(os.path.normpath(os.path.relpath(os.path.normpath(o["path"]), root)))
     # the config file, the lock next to it (and its scratch name while it is being replaced) and TMPDIR are legitimately opened
-    read_out_of_scope = sorted(p for p in opened if p not in scope and p not in ("proj/Breadlog.yaml", "proj/Breadlog.lock", "proj/Breadlog.lock.tmp")
-                               and not p.startswith("tmp/"))
+    # (a scratch file the run creates itself - wherever it chooses to put it - did not exist before and is not "a file that was read";
+    #  whether scratch files are cleaned up is C08's business, whether anything persists is covered by the snapshot diff above)
+    read_out_of_scope = sorted(p for p in opened if p not in scope and p in before and before[p][0] == "f"
+                               and p not in ("proj/Breadlog.yaml", "proj/Breadlog.lock"))
     if read_out_of_scope:
         v.append(("out-of-scope-file-read", {"paths": read_out_of_scope[:4]}))
     if scope:
